@@ -35,11 +35,11 @@ func FromBig(re, im *big.Float) C {
 	return c
 }
 
-func (a C) Add(b C) C  { return C{fl().Add(a.Re, b.Re), fl().Add(a.Im, b.Im)} }
-func (a C) Sub(b C) C  { return C{fl().Sub(a.Re, b.Re), fl().Sub(a.Im, b.Im)} }
-func (a C) Neg() C     { return C{fl().Neg(a.Re), fl().Neg(a.Im)} }
-func (a C) Conj() C    { return C{fl().Set(a.Re), fl().Neg(a.Im)} }
-func (a C) Clone() C   { return C{fl().Set(a.Re), fl().Set(a.Im)} }
+func (a C) Add(b C) C { return C{fl().Add(a.Re, b.Re), fl().Add(a.Im, b.Im)} }
+func (a C) Sub(b C) C { return C{fl().Sub(a.Re, b.Re), fl().Sub(a.Im, b.Im)} }
+func (a C) Neg() C    { return C{fl().Neg(a.Re), fl().Neg(a.Im)} }
+func (a C) Conj() C   { return C{fl().Set(a.Re), fl().Neg(a.Im)} }
+func (a C) Clone() C  { return C{fl().Set(a.Re), fl().Set(a.Im)} }
 func (a C) Mul(b C) C {
 	re := fl().Mul(a.Re, b.Re)
 	re.Sub(re, fl().Mul(a.Im, b.Im))
